@@ -67,9 +67,9 @@ func TestJudge(t *testing.T) {
 		{"para-middle", "a\n\n\tb", "<p>P a</p>\n<pre><code>b Q\n</code></pre>\n"},
 		{"para-middle", "<b>x</b>", "<p>P <b>x</b> Q</p>\n"},
 		{"para-middle", "<!-- c -->", "<p>P <!-- c --> Q</p>\n"},
-		{"para-middle", "&amp;", "<p>P &amp; Q</p>\n"},   // entity turned into another character
-		{"para-middle", "&copy;", "<p>P \u00a9 Q</p>\n"}, // the same
-		{"para-middle", "\\*", "<p>P * Q</p>\n"},         // a character of the value disappeared
+		{"para-middle", "&amp;", "<p>P &amp; Q</p>\n"},    // entity turned into another character
+		{"para-middle", "&copy;", "<p>P \u00a9 Q</p>\n"},  // the same
+		{"para-middle", "\\*", "<p>P * Q</p>\n"},          // a character of the value disappeared
 		{"para-middle", "ab", "<p>P a</p>\n<p>b Q</p>\n"}, // paragraph break without a blank line in the value
 		{"para-middle", "www.x.co", "<p>P <a href=\"http://www.x.co\">www.x.co</a> Q</p>\n"},
 		{"para-middle", "~~a~~", "<p>P <del>a</del> Q</p>\n"},
